@@ -361,3 +361,19 @@ Theorem c10_old_refill_refuted :
                  cbsum (core x) = 38 /\ table_of (ROk p) = Ret (Some t) /\ zlen (t_files t) = 1 /\ zlen (t_publics t) = 1).
 Proof. exact old_refill_refuted. Qed.
 Print Assumptions c10_old_refill_refuted.
+
+(* What the callback (in fetch_symbol_file: the symbol-cache writer) has been given when the body fails and no delivered
+   complete line is rejected: exactly the complete lines that were delivered, not the unterminated rest; the outcome is the
+   load error.  (Lines shorter than 80 KiB, any body that fails.) *)
+Theorem c10_stream_failed_body_callback :
+  forall (L : Type) (llen : L -> Z) (PS : Type) (init_ps : PS)
+         (recog : PS -> L -> PS + Z) (bump : PS -> PS) (lineno : PS -> Z),
+    (forall l, 1 <= llen l) ->
+    forall (lines : list L) (tail : Z), short_lines llen lines tail ->
+    forall (script : list sev) (p0 : PS),
+    delivered script = input_len L llen lines tail -> fails script = true ->
+    fold_recog L PS recog lineno init_ps lines = inl p0 ->
+    exists x, drive_stream L llen PS init_ps recog bump lineno lines tail script = Ret (RErr LOAD_ERROR 0, x) /\
+              cbsum (core x) = size L llen lines.
+Proof. exact stream_failed_cb. Qed.
+Print Assumptions c10_stream_failed_body_callback.
